@@ -180,14 +180,44 @@ def run(ck, ix, tier):
     # ------------------------------------------------------------ the term joiner
     f = ix.func(FHELP, "formatter")
     ck.analysed(f)
-    src = norm(f.node)
-    ck.check("fun = lambda x: exp_call(abs(x))" in src, "G-PROV", "formatter|ratio-renders-absolute-exponents", f.loc(), "in ratio layout the denominator shows |exponent|", "the ratio layout no longer renders the absolute value of the exponents")
-    ck.check("if value == 1:\n    pos_terms.append(key)" in src.replace("        ", "    ").replace("            ", "    ") or ("if value == 1:" in src and "pos_terms.append(key)" in src), "G-PROV", "formatter|exponent-one-omitted", f.loc(), "exponent 1 is not written", "exponent 1 is no longer omitted")
-    ck.check("if value == -1 and as_ratio:" in src, "G-PROV", "formatter|denominator-exponent-minus-one-omitted", f.loc(), "exponent -1 is not written in a denominator", "the -1 exponent handling in the denominator changed")
-    ck.check("pos_ret = join_u(product_fmt, pos_terms) or '1'" in src, "G-PROV", "formatter|empty-numerator-is-one", f.loc(), "an empty numerator is written as 1", "an empty numerator is no longer written as '1'")
-    ck.check("return join_u(division_fmt, [pos_ret, neg_ret])" in src, "G-PROV", "formatter|numerator-over-denominator", f.loc(), "numerator / denominator", "the ratio is no longer joined as [numerator, denominator]")
-    ck.check("neg_ret = parentheses_fmt.format(neg_ret)" in src and "if len(neg_terms) > 1:" in src, "G-PROV", "formatter|collected-denominator-parenthesised", f.loc(), "a collected denominator of several terms is parenthesised", "a collected denominator of several terms is no longer parenthesised")
-    ck.check("for key, value in numerator:" in src and "for key, value in denominator:" in src, "G-PROV", "formatter|terms-from-both-sides", f.loc(), "numerator terms positive, denominator terms negative", "formatter no longer walks numerator and denominator")
+    from .. import shape
+    from ..lib import defs_of as _defs_of
+    allnodes = list(ast.walk(f.node))          # includes nested defs/lambdas: the joiner may use local helpers
+    is_name = lambda x, n: isinstance(x, ast.Name) and x.id == n
+    is_const = lambda x, v: (isinstance(x, ast.Constant) and x.value == v) or (isinstance(x, ast.UnaryOp) and isinstance(x.op, ast.USub) and isinstance(x.operand, ast.Constant) and -x.operand.value == v)
+    as_ratio = lambda a: is_name(a, "as_ratio")
+    # (a) in ratio layout exponents are rendered through abs()
+    absx = [c for c in allnodes if isinstance(c, ast.Call) and is_name(c.func, "exp_call") and c.args and isinstance(c.args[0], ast.Call) and is_name(c.args[0].func, "abs")]
+    ck.check(bool(absx) and all(shape.holds_at(c, f.node, as_ratio, True) for c in absx), "G-PROV", "formatter|ratio-renders-absolute-exponents", f.loc(absx[0]) if absx else f.loc(),
+             "in ratio layout exponents are rendered as |exponent|", "the ratio layout no longer renders the absolute value of the exponents (a denominator term would show its minus sign)")
+    plain = [c for c in allnodes if isinstance(c, ast.Call) and is_name(c.func, "exp_call") and not (c.args and isinstance(c.args[0], ast.Call) and is_name(c.args[0].func, "abs"))]
+    ck.check(all(shape.holds_at(c, f.node, as_ratio, False) for c in plain), "G-PROV", "formatter|signed-exponents-only-without-ratio", f.loc(plain[0]) if plain else f.loc(), "signed exponents only in the product layout", "a signed exponent is rendered in the ratio layout")
+    # (b) exponent 1 in the numerator / exponent -1 in a ratio denominator are not written
+    eq1 = [c for c in allnodes if isinstance(c, ast.Compare) and len(c.ops) == 1 and isinstance(c.ops[0], ast.Eq) and (is_const(c.comparators[0], 1) or is_const(c.left, 1)) and shape.iterates_over(c, f.node, "numerator")]
+    ck.check(len(eq1) >= 1, "G-PROV", "formatter|exponent-one-omitted", f.loc(), "numerator terms test `exponent == 1`", "exponent 1 is no longer omitted for numerator terms")
+    eqm1 = [c for c in allnodes if isinstance(c, ast.Compare) and len(c.ops) == 1 and isinstance(c.ops[0], ast.Eq) and (is_const(c.comparators[0], -1) or is_const(c.left, -1)) and shape.iterates_over(c, f.node, "denominator")]
+    okm1 = bool(eqm1) and all(isinstance(getattr(c, "_parent", None), ast.BoolOp) and isinstance(c._parent.op, ast.And) and any(is_name(v, "as_ratio") for v in c._parent.values) for c in eqm1)
+    ck.check(okm1, "G-PROV", "formatter|denominator-exponent-minus-one-omitted", f.loc(eqm1[0]) if eqm1 else f.loc(), "`exponent == -1 and as_ratio` omits the exponent in a ratio denominator", "the -1 exponent handling in the denominator changed (it must apply only in ratio layout)")
+    # (c) an empty numerator is written as '1'
+    one = [b for b in allnodes if isinstance(b, ast.BoolOp) and isinstance(b.op, ast.Or) and is_const(b.values[-1], "1") and isinstance(b.values[0], ast.Call) and call_name(b.values[0]) == "join_u"]
+    ck.check(len(one) == 1, "G-PROV", "formatter|empty-numerator-is-one", f.loc(), "an empty numerator is written as 1", "an empty numerator is no longer written as '1'")
+    # (d) the final ratio is numerator over denominator
+    dfs = _defs_of(f)
+    finals = [r for r in shape.returns_of(f.node) if isinstance(r.value, ast.Call) and call_name(r.value) == "join_u" and len(r.value.args) == 2 and isinstance(r.value.args[1], (ast.List, ast.Tuple)) and len(r.value.args[1].elts) == 2]
+    okf = False
+    for r in finals:
+        x, y = r.value.args[1].elts
+        xv = shape.resolve(x, f.node)
+        # the numerator is the part that is written '1' when empty; it comes first, the denominator second
+        okf = okf or (isinstance(xv, ast.BoolOp) and isinstance(xv.op, ast.Or) and is_const(xv.values[-1], "1") and norm(x) != norm(y) and norm(r.value.args[0]) == "division_fmt")
+    ck.check(okf, "G-PROV", "formatter|numerator-over-denominator", f.loc(finals[0]) if finals else f.loc(), "join_u(division_fmt, [numerator part, denominator part])", "the ratio is no longer joined as [numerator, denominator] with the division format")
+    # (e) a collected denominator of several terms is parenthesised
+    par = [c for c in allnodes if isinstance(c, ast.Call) and isinstance(c.func, ast.Attribute) and c.func.attr == "format" and is_name(c.func.value, "parentheses_fmt")]
+    many = lambda a: isinstance(a, ast.Compare) and len(a.ops) == 1 and isinstance(a.ops[0], ast.Gt) and is_const(a.comparators[0], 1) and isinstance(a.left, ast.Call) and call_name(a.left) == "len"
+    ck.check(bool(par) and all(shape.holds_at(c, f.node, many, True) and shape.holds_at(c, f.node, lambda a: is_name(a, "single_denominator"), True) for c in par), "G-PROV", "formatter|collected-denominator-parenthesised", f.loc(par[0]) if par else f.loc(),
+             "a collected denominator of more than one term is parenthesised", "a collected denominator of several terms is no longer parenthesised (only when single_denominator and len > 1)")
+    its = {n for x in allnodes if isinstance(x, (ast.For, ast.comprehension)) for n in ("numerator", "denominator") if any(is_name(y, n) for y in ast.walk(x.iter))}
+    ck.check(its == {"numerator", "denominator"}, "G-PROV", "formatter|terms-from-both-sides", f.loc(), "walks numerator and denominator", "formatter no longer walks both numerator and denominator")
     f = ix.func(FHELP, "join_mu")
     ck.check("if ustr.startswith('1 / '):" in norm(f.node) and "ustr[2:]" in norm(f.node), "G-TABLE", "join_mu|drops-placeholder-numerator", f.loc(), "`3` and `1 / m` become `3 / m`", "join_mu no longer drops the '1' placeholder of an empty numerator")
     pc = ix.func("pint.delegates.formatter._compound_unit_helpers", "prepare_compount_unit")
@@ -212,7 +242,16 @@ def run(ck, ix, tier):
     sh = ix.module("pint.delegates.formatter._spec_helpers")
     for q in ("extract_custom_flags", "remove_custom_flags"):
         f = sh.functions[q]
-        ck.check("key=len, reverse=True" in norm(f.node), "G-EXH", f"{q}|longest-flag-first", f.loc(), "flags tried longest first", f"{q} no longer tries the longest flag first (Lx would be read as L + x)")
+        from .. import shape as _shape
+        srt = []
+        for c in walk_local(f.node):
+            if isinstance(c, ast.Call):
+                ex = _shape.expand(ix, f, c)   # sees through private single-return helpers and temporaries
+                for x in ast.walk(ex):
+                    if isinstance(x, ast.Call) and isinstance(x.func, ast.Name) and x.func.id == "sorted" and x.args and "REGISTERED_FORMATTERS" in norm(x.args[0]):
+                        kw = {k.arg: norm(k.value) for k in x.keywords}
+                        srt.append(kw.get("key") == "len" and kw.get("reverse") == "True")
+        ck.check(bool(srt) and all(srt), "G-EXH", f"{q}|longest-flag-first", f.loc(), "flags tried longest first", f"{q} no longer tries the longest registered flag first (Lx would be read as L + x)")
     want_cls = {"raw": "RawFormatter", "D": "DefaultFormatter", "H": "HTMLFormatter", "P": "PrettyFormatter", "Lx": "SIunitxFormatter", "L": "LatexFormatter", "C": "CompactFormatter"}
     got_cls = {}
     for a in walk_local(ff.node):
